@@ -308,7 +308,13 @@ impl Subscriber for SubscriberService {
                 crate::verif::point("api.pull.before_wait").await;
                 #[cfg(deltio_verif)]
                 crate::verif::probe("pull_parked");
-                signal.await;
+                // If the subscription is deleted while we wait, return a not found.
+                tokio::select! {
+                    _ = signal => {},
+                    _ = subscription.deleted() => {
+                        return Err(subscription_not_found(&subscription_name));
+                    }
+                }
             }
         };
 
@@ -368,7 +374,9 @@ impl Subscriber for SubscriberService {
 
                     // Then, pull the available messages from the subscription.
                     let pulled = match subscription.pull_messages(max_count).await {
-                        Err(PullMessagesError::Closed) => return,
+                        // The subscription's mailbox is closed, which means it was deleted;
+                        // leave the loop so the stream terminates with a not found status.
+                        Err(PullMessagesError::Closed) => break,
                         Ok(pulled) => pulled,
                     };
 
